@@ -116,6 +116,13 @@ def run(ctx):
         for conc, mode in ((1, "read"), (1, "writeto"), (4, "read")):
             cases.append({"id": len(cases) + 1, "chunks": [], "plan": {"code": 4, "bcs": False, "ccs": conc == 1, "seed": 4242, "blocks": blocks},
                           "cfg": {"conc": conc, "mode": mode, "bufs": [7], "extra": 1}})
+    # several short dependent blocks in a frame that declares a content size below the block maximum (an encoder that flushes
+    # often): concurrency above 1 must still fall back to sequential decoding
+    for blocks in ([{"size": 1000, "kind": "lits"}, {"size": 1000, "kind": "mprev"}, {"size": 1500, "kind": "mfar"}, {"size": 700, "kind": "mstraddle"}],
+                   [{"size": 300, "kind": "raw"}, {"size": 300, "kind": "moff", "off": 250}, {"size": 125, "kind": "m2"}]):
+        for conc, mode in ((4, "read"), (2, "writeto"), (1, "read"), (16, "read")):
+            cases.append({"id": len(cases) + 1, "chunks": [], "plan": {"code": 4, "bcs": conc == 4, "ccs": True, "seed": 5151, "blocks": blocks, "size": True},
+                          "cfg": {"conc": conc, "mode": mode, "bufs": [rnd.choice([4096, 100])], "extra": 1}})
     recs, faults = fl.shard_run(b, "frame-read", cases, d, "r", extra=("--watchdog", "120s"))
     if faults:
         raise vlib.MachineryFault("frame-read failed: %s" % faults[0]["stderr"][-800:])
